@@ -8,6 +8,7 @@ import Ivg.Gen.Tie.LoggerForwards
 import Ivg.Gen.Tie.Code.Draw
 import Ivg.Gen.Tie.Code.Transform
 import Ivg.Gen.Tie.Code.RenderRegs
+import Ivg.Gen.Tie.Code.Logger
 import Ivg.Obligations
 /-!
 # C05 — drawing operations reach the rasteriser as the right segments, affinely mapped
@@ -659,4 +660,8 @@ end Ivg.Props.C05
   Ivg.Gen.Tie.renderer_SetNReg_code_tie,
   Ivg.Gen.Tie.positiveInfinity_code_tie,
   Ivg.Gen.Tie.renderer_Reset_code_tie,
-  Ivg.Gen.Tie.renderer_Reset_code_tie_frame]
+  Ivg.Gen.Tie.renderer_Reset_code_tie_frame,
+  -- regenerated code (translator): the RasterizerLogger reads are transparent
+  Ivg.Gen.Tie.rasterizerLogger_Pen_code_tie,
+  Ivg.Gen.Tie.rasterizerLogger_Bounds_code_tie,
+  Ivg.Gen.Tie.rasterizerLogger_Size_code_tie]
